@@ -793,6 +793,30 @@ theorem strVal_oracle_inj (r1 r2 : List Char) : strVal .oracle r1 = strVal .orac
     cases r1 <;> cases r2 <;> simp_all
   · intro h; rw [h]
 
+/-! ### the decoder used by the driver is the inverse of `enc` -/
+
+theorem enc_is_list (t : Sql) : ∃ xs, t.enc = .list xs := by cases t <;> exact ⟨_, rfl⟩
+
+theorem dec_sound (v : PyVal) : ∀ t, dec v = some t → t.enc = v := by
+  fun_induction dec v <;> intro t h <;> simp [Option.bind_eq_some_iff] at h
+  all_goals first
+    | (subst h; rfl)
+    | (obtain ⟨a1, h1, rfl⟩ := h; simp [Sql.enc, *])
+    | (obtain ⟨a1, h1, a2, h2, rfl⟩ := h; simp [Sql.enc, *])
+    | (obtain ⟨a1, h1, a2, h2, a3, h3, rfl⟩ := h; simp [Sql.enc, *])
+    | (obtain ⟨a1, h1, a2, h2, a3, h3, a4, h4, a5, h5, a6, h6, a7, h7, a8, h8, rfl⟩ := h; simp [Sql.enc, *])
+
+/-- and the decoder loses nothing: every typed AST is recovered from its encoding -/
+theorem dec_enc (t : Sql) : dec t.enc = some t := by
+  induction t with
+  | substr3 e p l ihe ihp ihl =>
+      obtain ⟨xs, hxs⟩ := enc_is_list l
+      simp only [Sql.enc]
+      rw [hxs]
+      simp only [dec]
+      rw [← hxs]; simp [ihe, ihp, ihl]
+  | _ => simp_all [Sql.enc, dec]
+
 /-! ### pinned parameters and the translator cache -/
 
 theorem getitemSlice_snd (recv : Recv) (start stop : GArg) (f : Fixed) :
